@@ -11,11 +11,11 @@
 (*                    15 min (+ slack); the bootstrap-less first node never does (populate is a no-op);  *)
 (*  NeverStaysEmpty : no live node with a live bootstrap node has an empty main table.                 *)
 EXTENDS Integers, Sequences, FiniteSets, TLC, Json, IOUtils, TLCExt
-VARIABLES l, lastAns, down, started, lastRefresh, beh, first, exempt, nserv
+VARIABLES l, lastAns, down, started, lastRefresh, beh, first, exempt, nserv, prevT
 Rec == ndJsonDeserialize(IOEnv.TRACE)
-vars == <<l, lastAns, down, started, lastRefresh, beh, first, exempt, nserv>>
+vars == <<l, lastAns, down, started, lastRefresh, beh, first, exempt, nserv, prevT>>
 Min == 60000
-TInit == l = 1 /\ lastAns = <<>> /\ down = <<>> /\ started = <<>> /\ lastRefresh = <<>> /\ beh = -1 /\ first = 0 /\ exempt = {} /\ nserv = 0
+TInit == l = 1 /\ lastAns = <<>> /\ down = <<>> /\ started = <<>> /\ lastRefresh = <<>> /\ beh = -1 /\ first = 0 /\ exempt = {} /\ nserv = 0 /\ prevT = <<>>
 SeqSet(q) == {q[i] : i \in 1..Len(q)}
 Get(f, k, d) == IF k \in DOMAIN f THEN f[k] ELSE d
 
@@ -31,7 +31,18 @@ Boundary(e) ==
       \* e.answers: every pair <<n, p, age_s, exempt>> whose last answer (lookup or ping response of p to n) is at most 15 minutes old
       bad == {i \in 1..Len(e.answers) : LET a == e.answers[i] IN
                 a[1] \in alive /\ a[2] \in alive /\ a[1] # a[2] /\ ~a[4] /\ a[2] \notin TableOf(a[1])}
-      keeps == bad = {}
+      \* "is STILL in its routing table": a peer that was in one of n's two tables at the previous boundary and has answered n
+      \* within the last 15 minutes is still in THAT table (a responsive entry is never stale, and only stale entries are
+      \* replaced or removed) - unless n took a new id in between (every node is re-bucketed and a merged bucket can overflow)
+      \* or one of the two was (re)started in between.  prevT: n -> [main, signed, id, t] of the previous boundary
+      Answered(n, p) == \E i \in 1..Len(e.answers) : e.answers[i][1] = n /\ e.answers[i][2] = p
+      Fresh(x, since) == Get(started, x, 0) < since
+      dropped == {<<n, p, X>> \in (DOMAIN prevT \cap DOMAIN tblOf) \X alive \X {"main", "signed"} :
+                    /\ n \in alive /\ n # p /\ prevT[n].id = tblOf[n][7] /\ Fresh(n, prevT[n].t) /\ Fresh(p, prevT[n].t)
+                    /\ p \in (IF X = "main" THEN prevT[n].main ELSE prevT[n].signed)
+                    /\ Answered(n, p)
+                    /\ p \notin SeqSet(IF X = "main" THEN tblOf[n][5] ELSE tblOf[n][6])}
+      keeps == bad = {} /\ dropped = {}
       drops == \A p \in DOMAIN down : \A n \in alive : (t - down[p] > 26 * Min) => p \notin TableOf(n)
       \* up to K servers every live node must know the restarted peer; in larger networks (full buckets, lookups that reach
       \* only the closest nodes) at least one other live node must
@@ -47,15 +58,33 @@ Boundary(e) ==
                 \cup (IF relearn THEN {} ELSE {"C14_Relearns"}) \cup (IF refresh THEN {} ELSE {"C14_RefreshEvery15"})
                 \cup (IF nonempty THEN {} ELSE {"C14_NeverStaysEmpty"}) \cup (IF e.panicked THEN {"C14_NoPanic"} ELSE {})
   IN /\ IF failed # {} THEN PrintT(<<"VIOL", ToJson([line |-> l, b |-> beh, failed |-> failed, t_min |-> t \div Min,
-                                     missing |-> {e.answers[i] : i \in bad}])>>) ELSE TRUE
+                                     missing |-> {e.answers[i] : i \in bad}, dropped |-> dropped])>>) ELSE TRUE
+     /\ prevT' = [n \in DOMAIN tblOf |-> [main |-> SeqSet(tblOf[n][5]), signed |-> SeqSet(tblOf[n][6]), id |-> tblOf[n][7], t |-> t]]
      /\ lastRefresh' = lr /\ UNCHANGED <<lastAns, exempt, down, started, beh, first, nserv>>
 
 Step ==
   LET e == Rec[l] IN
-  CASE e.e = "reset" -> lastAns' = <<>> /\ down' = <<>> /\ started' = <<>> /\ lastRefresh' = <<>> /\ beh' = e.b /\ first' = e.first /\ exempt' = {} /\ nserv' = e.servers
-    [] e.e = "crash" -> down' = (e.p :> e.t) @@ down /\ UNCHANGED <<lastAns, started, lastRefresh, beh, first, exempt, nserv>>
-    [] e.e = "start" -> started' = (e.p :> e.t) @@ started /\ UNCHANGED <<lastAns, down, lastRefresh, beh, first, exempt, nserv>>
+  CASE e.e = "reset" -> lastAns' = <<>> /\ down' = <<>> /\ started' = <<>> /\ lastRefresh' = <<>> /\ beh' = e.b /\ first' = e.first /\ exempt' = {} /\ nserv' = e.servers /\ prevT' = <<>>
+    [] e.e = "crash" -> down' = (e.p :> e.t) @@ down /\ UNCHANGED <<lastAns, started, lastRefresh, beh, first, exempt, nserv, prevT>>
+    [] e.e = "start" -> started' = (e.p :> e.t) @@ started /\ UNCHANGED <<lastAns, down, lastRefresh, beh, first, exempt, nserv, prevT>>
     [] e.e = "boundary" -> Boundary(e)
+    \* one watched node among scripted peers: who is in which of its tables, who has answered it within the last 15 minutes
+    [] e.e = "tablewatch" ->
+         LET now == [main |-> SeqSet(e.main), signed |-> SeqSet(e.signed), id |-> e.id, t |-> e.t]
+             dropped == IF 0 \in DOMAIN prevT /\ prevT[0].id = e.id
+                        THEN {<<p, X>> \in SeqSet(e.answered) \X {"main", "signed"} :
+                                 p \in (IF X = "main" THEN prevT[0].main ELSE prevT[0].signed)
+                                 /\ p \notin (IF X = "main" THEN now.main ELSE now.signed)}
+                        ELSE {}
+             \* all peers of the scenario share one bucket and have addresses of their own: "capacity and IP limits permitting" = the
+             \* bucket of that table has room.  A peer that answered within the last 15 minutes is in the main table, and - if it
+             \* supports signed announcements - in the signed-peers table, wherever there is room for it
+             absent == {<<p, "main">> : p \in {x \in SeqSet(e.answered) : x \notin now.main /\ Cardinality(now.main) < e.bucket_capacity}}
+                       \cup {<<p, "signed">> : p \in {x \in SeqSet(e.answered) \cap SeqSet(e.capable) : x \notin now.signed /\ Cardinality(now.signed) < e.bucket_capacity}}
+             failed == (IF dropped = {} /\ absent = {} THEN {} ELSE {"C14_KeepsResponsive"}) \cup (IF e.panicked THEN {"C14_NoPanic"} ELSE {})
+         IN /\ IF failed # {} THEN PrintT(<<"VIOL", ToJson([line |-> l, b |-> beh, failed |-> failed, t_min |-> e.t \div Min, missing |-> absent, dropped |-> dropped])>>) ELSE TRUE
+            /\ prevT' = (0 :> now)
+            /\ UNCHANGED <<lastAns, down, started, lastRefresh, beh, first, exempt, nserv>>
 TNext == l <= Len(Rec) /\ Step /\ l' = l + 1
 TSpec == TInit /\ [][TNext]_vars
 TraceAccepted == IF TLCGet("stats").diameter - 1 = Len(Rec) THEN TRUE
